@@ -15,6 +15,11 @@ Qed.
 Lemma pack_length r : length (pack r) = 20%nat.
 Proof. reflexivity. Qed.
 
+Lemma firstn_pack r rest : firstn 20 (pack r ++ rest) = pack r.
+Proof. reflexivity. Qed.
+Lemma skipn_pack r rest : skipn 20 (pack r ++ rest) = rest.
+Proof. reflexivity. Qed.
+
 Lemma records_flat rs : forall fuel, (length rs <= fuel)%nat ->
   forallb rec_ok rs = true -> records fuel (flat_map pack rs) = Some rs.
 Proof.
@@ -24,12 +29,7 @@ Proof.
     destruct fuel as [|fuel]; [cbn in Hf; lia|].
     cbn [flat_map]. cbn [records].
     destruct (pack r ++ flat_map pack rs) eqn:E; [discriminate E|]. rewrite <- E.
-    replace (firstn 20 (pack r ++ flat_map pack rs)) with (pack r)
-      by (rewrite firstn_app; replace (20 - length (pack r))%nat with 0%nat by reflexivity;
-          cbn [firstn]; rewrite app_nil_r; symmetry; apply firstn_all).
-    replace (skipn 20 (pack r ++ flat_map pack rs)) with (flat_map pack rs)
-      by (rewrite skipn_app; replace (20 - length (pack r))%nat with 0%nat by reflexivity;
-          rewrite (skipn_all (pack r)); reflexivity).
+    rewrite firstn_pack, skipn_pack.
     rewrite (unpack_pack r Hr), IH; [reflexivity|cbn in Hf; lia|exact Hrs].
 Qed.
 
